@@ -67,15 +67,14 @@ Theorem c20_unescape_iff : forall raw s, unescape raw = Ok s <-> UEnc s raw.
 Proof. exact unescape_iff. Qed.
 Print Assumptions c20_unescape_iff.
 
-(** ... and everything else is a LiquidSyntaxError, never a Python exception
-    (strings with lone surrogates excepted, DESIGN 4.1). *)
-Theorem c20_unescape_rejects_invalid : forall v,
-  no_surrogates v -> ok_or_syntax (unescape v).
+(** ... and everything else is a LiquidSyntaxError, never a Python exception,
+    on every string (lone surrogates included). *)
+Theorem c20_unescape_rejects_invalid : forall v, ok_or_syntax (unescape v).
 Proof. exact unescape_total. Qed.
 Print Assumptions c20_unescape_rejects_invalid.
 
 Theorem c20_literal_errors_segment : forall q src st,
-  is_quote q -> no_surrogates src ->
+  is_quote q ->
   match accept_string q src with
   | Ok (raw, rest) => ok_or_syntax (site_value st q raw)
   | LErr LiquidSyntaxError None => True
